@@ -335,6 +335,9 @@ Far == IF Absent = {} THEN {}
        ELSE {CHOOSE x \in Absent : \A y \in Absent : x <= y, CHOOSE x \in Absent : \A y \in Absent : x >= y}
 RmCands == SmallSets(IdSet(pool) \cup Far, MaxRm) \ {{}}
 BlkCands == {SetToSeq(T) : T \in SmallSets(IdSet(pool) \cup Far, MaxBlk)}
+\* a block replacing the tip may hold the tip's own transactions again (the usual case in a reorganisation)
+TipSet == IF chain = <<>> THEN {} ELSE SeqToSet(chain[Len(chain)].txs)
+RBlkCands == {SetToSeq(T) : T \in SmallSets(IdSet(pool) \cup Far \cup TipSet, MaxBlk)}
 QryCands == SmallSets(IdSet(pool) \cup Far, 2)
 
 Next == \/ \E w \in 1..SubW : \E e \in Ent : Submit(e, None)
@@ -342,7 +345,7 @@ Next == \/ \E w \in 1..SubW : \E e \in Ent : Submit(e, None)
         \/ \E b \in BlkCands : AddBlock(b)
         \/ (~NodeRig /\ DelBlock)
         \/ \E b \in BlkCands : Reorg(b)
-        \/ \E b \in BlkCands : ReorgInv(b)
+        \/ \E b \in RBlkCands : ReorgInv(b)
         \/ \E S \in RmCands : Remove(S)
         \/ SweepNow
         \/ Tick
